@@ -431,6 +431,19 @@ func formatFloat(f float64, bits int) string {
 }
 
 func enc(sb *strings.Builder, v *schema.V, o *Options) {
+	if v.Null {
+		sb.WriteString("null")
+		return
+	}
+	if v.Bad {
+		switch v.T.Base().Kind {
+		case schema.String, schema.Bytes, schema.Fixed, schema.Enum:
+			sb.WriteString("[7]")
+		default:
+			sb.WriteString(`"zz"`)
+		}
+		return
+	}
 	sp := ""
 	if o.Spaces {
 		sp = " "
